@@ -35,10 +35,12 @@ class Env:
     def __init__(self, tag, params):
         self.tag = tag
         self._params = params
+        self.poison_params = False
 
     @property
     def params(self):
-        return copy.deepcopy(self._params)
+        # poison_params: a tuple key, which json cannot write as an object key (the run stops at this component's record)
+        return copy.deepcopy(self._params) if not getattr(self, "poison_params", False) else {**copy.deepcopy(self._params), (1, 2): 3}
 
     def read(self):
         return iter(())
@@ -56,10 +58,11 @@ class Lrn:
     def __init__(self, tag, params):
         self.tag = tag
         self._params = params
+        self.poison_params = False
 
     @property
     def params(self):
-        return copy.deepcopy(self._params)
+        return copy.deepcopy(self._params) if not getattr(self, "poison_params", False) else {**copy.deepcopy(self._params), (1, 2): 3}
 
     def predict(self, context, actions):  # never called by our evaluators
         return [1] + [0] * (len(actions) - 1)
@@ -107,7 +110,7 @@ class Evl:
 
     @property
     def params(self):
-        return copy.deepcopy(self._params)
+        return copy.deepcopy(self._params) if not getattr(self, "poison_params", False) else {**copy.deepcopy(self._params), (1, 2): 3}
 
     def _rows(self, key):
         return [copy.deepcopy(r) for r in self.table.get(key, [])]
@@ -126,7 +129,7 @@ class Evl:
                 if not self.lazy:
                     raise KeyboardInterrupt()
                 return _interrupted(rows[:ri])
-            bad = {1, 2} if kind == "set" else _Unwritable()
+            bad = {1, 2} if kind == "set" else ({"k": {(1, 2): 3}} if kind == "tuplekey" else _Unwritable())
             if rows:
                 rows[ri % len(rows)]["bad"] = bad
             else:
